@@ -102,7 +102,12 @@ impl Poly {
         self.add(&o.neg())
     }
     pub fn mul(&self, o: &Self) -> Option<Self> {
-        if self.t.len() * o.t.len() > MAX_TERMS * 8 {
+        self.mul_cap(o, MAX_TERMS)
+    }
+    pub fn mul_cap(&self, o: &Self, cap: usize) -> Option<Self> {
+        #[allow(non_snake_case)]
+        let max_terms = cap;
+        if self.t.len() * o.t.len() > max_terms * 64 {
             return None;
         }
         let mut r = Self::zero(self.p);
@@ -117,7 +122,7 @@ impl Poly {
                 }
             }
         }
-        if r.t.len() > MAX_TERMS { None } else { Some(r) }
+        if r.t.len() > max_terms { None } else { Some(r) }
     }
     pub fn scale_mono(&self, m: &Mono, c: u64) -> Self {
         let mut r = Self::zero(self.p);
@@ -237,6 +242,10 @@ impl PolyCtx {
 /// Multivariate division of `g` by `hs`: returns (remainder, cofactors) with
 /// g = Σ cof_i·h_i + remainder. Bounded work; `None` when the bound is hit.
 pub fn reduce(g: &Poly, hs: &[Poly]) -> Option<(Poly, Vec<Poly>)> {
+    reduce_steps(g, hs, 3000)
+}
+
+pub fn reduce_steps(g: &Poly, hs: &[Poly], max_steps: usize) -> Option<(Poly, Vec<Poly>)> {
     let p = g.p;
     let mut rem_in = g.clone();
     let mut rem_out = Poly::zero(p);
@@ -245,7 +254,7 @@ pub fn reduce(g: &Poly, hs: &[Poly]) -> Option<(Poly, Vec<Poly>)> {
     let mut steps = 0;
     while let Some((m, c)) = rem_in.lead() {
         steps += 1;
-        if steps > 3000 || rem_in.t.len() > MAX_TERMS {
+        if steps > max_steps || rem_in.t.len() > MAX_TERMS {
             return None;
         }
         let mut reduced = false;
